@@ -1,0 +1,27 @@
+// SPDX-FileCopyrightText: 2020-present Open Networking Foundation <info@opennetworking.org>
+//
+// SPDX-License-Identifier: Apache-2.0
+
+//go:build verif
+
+package mastership
+
+import (
+	"github.com/onosproject/onos-config/pkg/store/topo"
+	"github.com/onosproject/onos-config/pkg/store/v2/configuration"
+)
+
+// NewReconcilerForVerif exposes the Reconciler to the verification harness
+func NewReconcilerForVerif(topo topo.Store, configurations configuration.Store) *Reconciler {
+	return &Reconciler{topo: topo, configurations: configurations}
+}
+
+// NewTopoWatcherForVerif exposes the TopoWatcher to the verification harness
+func NewTopoWatcherForVerif(topo topo.Store) *TopoWatcher {
+	return &TopoWatcher{topo: topo}
+}
+
+// NewConfigurationStoreWatcherForVerif exposes the ConfigurationStoreWatcher to the verification harness
+func NewConfigurationStoreWatcherForVerif(configurations configuration.Store) *ConfigurationStoreWatcher {
+	return &ConfigurationStoreWatcher{configurations: configurations}
+}
